@@ -174,6 +174,8 @@ package expand
 
 // ---- C33 call sites / C28 in expand ----
 //@ func Config.assignElem
+// (ghost variables updated at the call sites of this function; everything else it may write is not framed)
+//@ modifies heap, arClock, arRhs, arRhsErr, arRhsTime
 //@ noauto
 //@ props C28 C33
 //@ requires [variable-invariant] wfArr(vr.List, vr.Indexes)
@@ -213,6 +215,8 @@ package expand
 //@ pure
 
 //@ func Config.varInd
+// (ghost variables updated at the call sites of this function; everything else it may write is not framed)
+//@ modifies heap, arClock, arRhs, arRhsErr, arRhsTime
 //@ noauto
 //@ props C28 C33
 //@ requires [variable-invariant] wfArr(vr.List, vr.Indexes)
@@ -267,6 +271,8 @@ package expand
 //@ spec assgnArg() int64 = int64(arRhs)
 
 //@ func Config.assgnArit
+// (ghost variables updated at the call sites of this function; everything else it may write is not framed)
+//@ modifies heap, arClock, arGetName, arGetStr, arGetTime, arRhs, arRhsErr, arRhsTime, arSetName, arSetStr, arSetTime
 //@ props C20
 //@ mode bv
 //@ nosafety
@@ -305,6 +311,8 @@ package expand
 //@ pure
 
 //@ func Config.sliceElems
+// (ghost variables updated at the call sites of this function; everything else it may write is not framed)
+//@ modifies heap, arClock, arRhs, arRhsErr, arRhsTime
 //@ noauto
 //@ props C33 C28
 //@ requires [variable-invariant] wfArr(elems, indexes)
